@@ -41,6 +41,7 @@ PROPERTY P_AcceptedSendInFlight
 PROPERTY P_OnlySendsAndForwardsEmit
 PROPERTY P_FlightKeepsPayload
 PROPERTY P_OldestFirst
+PROPERTY P_FlightWellFormed
 PROPERTY P_WireLogsEveryFrame
 PROPERTY P_NoLoop
 PROPERTY P_ForwardToContainingNet
